@@ -50,6 +50,39 @@ def hasKind (l : List (List Nat)) : Bool := !l.isEmpty
 /-- `[tuple((off+u for u in e)) for e in l]` -/
 def shiftBy (off : Nat) (l : List (List Nat)) : List (List Nat) := l.map (fun e => e.map (fun u => off + u))
 
+/-! ### `from_arrays`, `reorder_vertices` (round 6) -/
+
+/-- a float array handed over by the caller: only its VALUES matter here, because the translator insists on a copying form
+(`np.array(V)`) before the rows are stored (anything else is refused) -/
+structure ArrV where
+  cols : Nat
+  rows : List (List Rat)
+
+/-- an index array (`E`, `F`, `C`) -/
+structure ArrI where
+  cols : Nat
+  rows : List (List Nat)
+
+/-- `np.pad(V, ((0,0),(0,n)))`: `n` zero columns on the right -/
+def ArrV.padRight (v : ArrV) (n : Nat) : ArrV := { cols := v.cols + n, rows := v.rows.map (fun r => r ++ List.replicate n 0) }
+/-- the rows as coordinate vectors (used once the array has 3 columns) -/
+def ArrV.toV3 (v : ArrV) : List V3 := v.rows.map (fun r => ⟨r.getD 0 0, r.getD 1 0, r.getD 2 0⟩)
+/-- `np.any(np.asarray(E) >= n)` -/
+def ArrI.anyGe (e : ArrI) (n : Nat) : Bool := e.rows.any (fun r => r.any (fun u => decide (n ≤ u)))
+
+/-- the raw mesh under construction (`m = RawMeshData()`; `m.vertices += …` stores NEW vector objects: values only) -/
+structure RawAcc where
+  verts : List V3 := []
+  edges : List (List Nat) := []
+  faces : List (List Nat) := []
+  cells : List (List Nat) := []
+
+/-- `_instanciate_raw_mesh_data(m)` / `return m`: the mesh enters the state with its coordinates in FRESH cells -/
+def instanciate (s : State) (m : RawAcc) : State := newMesh s m.verts m.edges m.faces m.cells
+
+/-- `np.argsort(p)` for a permutation `p` of `0..n-1`: the inverse permutation -/
+def argsortPerm (p : List Nat) : List Nat := (List.range p.length).map (fun j => p.idxOf j)
+
 /-! ### `copy`: the statement tables (round 5) -/
 
 /-- how the right-hand side of `copy_mesh.<path> = …` is obtained from `mesh.<path>` -/
